@@ -173,7 +173,10 @@ func (ft *FuncTr) sortSlice(st *State, at *Term, in ssa.Instruction, c *ssa.Call
 		ei := ft.h.readAt(arb, SlcElemAddr(s, i), elemT)
 		ej := ft.h.readAt(arb, SlcElemAddr(s, j), elemT)
 		rv := relTerm(arb, ei, ej)
-		ft.assert(at, Implies(And(inR(i), inR(j)), Eq(lv, rv)), "sort.less", "", "the comparator's contract equals the relation "+rel.text+" on the elements at i and j", pos)
+		// the comparator must agree with the relation on every pair the relation orders; on pairs the relation
+		// leaves incomparable (neither before the other) its answer is irrelevant for the sorted result
+		rvRev := relTerm(arb, ej, ei)
+		ft.assert(at, Implies(And(inR(i), inR(j)), And(Implies(rv, lv), Implies(lv, Not(rvRev)))), "sort.less", "", "the comparator agrees with the relation "+rel.text+" on the elements at i and j", pos)
 	}
 	// ---- obligation: strict order ----
 	{
@@ -191,7 +194,7 @@ func (ft *FuncTr) sortSlice(st *State, at *Term, in ssa.Instruction, c *ssa.Call
 		eb := ft.h.readAt(st, SlcElemAddr(s, b), elemT)
 		ft.assume(at, Forall([]Bound{{"sa", SInt}, {"sb", SInt}}, Implies(And(Le(IntLit(0), a), Lt(a, b), Lt(b, n)), Not(relTerm(st, eb, ea)))))
 	}
-	ft.w.assume("sort.Slice: afterwards the slice is a permutation of its former contents and no element is less than an earlier one (assumed of the library; comparator obligations are proved at the call site)")
+	ft.w.assume("sort.Slice: afterwards the slice is a permutation of its former contents and no element is before an earlier one in the relation, provided the comparator agrees with that strict weak order on all comparable pairs (assumed of the library; comparator obligations are proved at the call site)")
 	return Val{}, nil
 }
 
